@@ -36,6 +36,28 @@ type realOrigin struct {
 	srv   *http.Server
 	addr  string
 	reset bool // next request: close the connection without answering
+	busy  bool // every request is answered 503 with a long error body (a load balancer's error page)
+	conns map[net.Conn]bool
+}
+
+func (o *realOrigin) connState(c net.Conn, st http.ConnState) {
+	o.mu.Lock()
+	defer o.mu.Unlock()
+	if o.conns == nil {
+		o.conns = map[net.Conn]bool{}
+	}
+	switch st {
+	case http.StateNew, http.StateActive, http.StateIdle:
+		o.conns[c] = true
+	case http.StateClosed, http.StateHijacked:
+		delete(o.conns, c)
+	}
+}
+
+func (o *realOrigin) openConns() int {
+	o.mu.Lock()
+	defer o.mu.Unlock()
+	return len(o.conns)
 }
 
 func (o *realOrigin) ServeHTTP(w http.ResponseWriter, r *http.Request) {
@@ -45,7 +67,14 @@ func (o *realOrigin) ServeHTTP(w http.ResponseWriter, r *http.Request) {
 	tag := o.tags[key]
 	rst := o.reset
 	o.reset = false
+	busy := o.busy
 	o.mu.Unlock()
+	if busy {
+		w.Header().Set("Content-Type", "text/html")
+		w.WriteHeader(503)
+		w.Write(bytes.Repeat([]byte("<p>The service is temporarily unavailable. Please try again later.</p>\n"), 12))
+		return
+	}
 	if rst {
 		if hj, ok := w.(http.Hijacker); ok {
 			c, _, _ := hj.Hijack()
@@ -67,7 +96,7 @@ func (o *realOrigin) up() bool {
 		ln, err := net.Listen("tcp", o.addr)
 		if err == nil {
 			o.ln = ln
-			o.srv = &http.Server{Handler: o}
+			o.srv = &http.Server{Handler: o, ConnState: o.connState}
 			go o.srv.Serve(ln)
 			return true
 		}
@@ -187,6 +216,7 @@ func SrvRealChild(args []string) {
 			return
 		}
 		srv.Start()
+		pmtiles.VerifStartLog() // event-loop bookkeeping of this process: the reported cache size after every event
 		get = func(path string) (int, []byte) {
 			st, _, body := srv.Get(context.Background(), path)
 			return st, body
@@ -204,7 +234,7 @@ func SrvRealChild(args []string) {
 			if len(p) > 3 {
 				mod = p[3]
 			}
-			b := applyMod(scriptArchive(p[1], ver, false), mod)
+			b := applyMod(scriptArchive(p[1], ver, mod == "big"), mod)
 			nput++
 			if origin != nil {
 				origin.mu.Lock()
@@ -251,6 +281,10 @@ func SrvRealChild(args []string) {
 					origin.mu.Lock()
 					origin.reset = true
 					origin.mu.Unlock()
+				case "busy", "calm":
+					origin.mu.Lock()
+					origin.busy = p[1] == "busy"
+					origin.mu.Unlock()
 				}
 			}
 		case "S":
@@ -277,7 +311,33 @@ func SrvRealChild(args []string) {
 			}
 		}
 	}
+	if !viaCLI {
+		max := 0
+		for _, ev := range pmtiles.VerifTakeLog() {
+			if (ev.Kind == "req" || ev.Kind == "resp") && ev.Total > max {
+				max = ev.Total
+			}
+		}
+		if origin != nil {
+			// connections the server still holds to the origin once everything is answered (idle ones of the
+			// connection pool included): bounded by the pool, whatever the number of failures before
+			time.Sleep(150 * time.Millisecond)
+			out = append(out, fmt.Sprintf("conns=%d", origin.openConns()))
+		}
+		out = append(out, fmt.Sprintf("maxcache=%d", max))
+	}
 	fmt.Println(strings.Join(out, " "))
+}
+
+// splitMaxCache removes the trailing `maxcache=<n>` token of an in-process srvreal result (-1: none)
+func splitMaxCache(goOut string) (string, int) {
+	if i := strings.LastIndex(goOut, "maxcache="); i >= 0 {
+		n, err := strconv.Atoi(strings.TrimSpace(goOut[i+len("maxcache="):]))
+		if err == nil {
+			return strings.TrimSpace(goOut[:i]), n
+		}
+	}
+	return goOut, -1
 }
 
 func runSrvReal(backend string, cacheMB int, ops []string) string {
@@ -327,7 +387,25 @@ func runSrvReal(backend string, cacheMB int, ops []string) string {
 }
 
 // judgeReal: sequential histories — request i runs entirely at its own op index
+// splitConns removes the `conns=<n>` token (-1: none)
+func splitConns(goOut string) (string, int) {
+	f := strings.Fields(goOut)
+	for i, t := range f {
+		if strings.HasPrefix(t, "conns=") {
+			n, _ := strconv.Atoi(t[6:])
+			return strings.Join(append(f[:i:i], f[i+1:]...), " "), n
+		}
+	}
+	return goOut, -1
+}
+
 func judgeReal(ops []string, goOut string, faultsAllowed bool) string {
+	goOut, _ = splitMaxCache(goOut)
+	goOut, nconns := splitConns(goOut)
+	if nconns > 8 {
+		// net/http keeps at most a few idle connections per host; more means responses were never closed
+		return fmt.Sprintf("%d connections to the origin are still open after the last answer (responses not closed: the process runs out of descriptors)", nconns)
+	}
 	if strings.HasPrefix(goOut, "crash:") {
 		return "the server process crashed: " + goOut
 	}
@@ -354,7 +432,12 @@ func judgeReal(ops []string, goOut string, faultsAllowed bool) string {
 			if len(p) > 3 {
 				mod = p[3]
 			}
-			b := applyMod(scriptArchive(p[1], ver, false), mod)
+			b := applyMod(scriptArchive(p[1], ver, mod == "big"), mod)
+			if mod == "cuttiles" || mod == "cutmeta" {
+				// the file lost its tail: what it still answers with 200 (metadata, TileJSON, cached tiles) must be
+				// what the complete version answers; everything else may fail (faults are allowed in these scripts)
+				b = scriptArchive(p[1], ver, false)
+			}
 			key := p[1] + ".pmtiles"
 			if old := cur[key]; old != nil {
 				old.died = i
@@ -374,6 +457,10 @@ func judgeReal(ops []string, goOut string, faultsAllowed bool) string {
 				down = false
 			case "reset":
 				resetNext = true
+			case "busy":
+				down = true
+			case "calm":
+				down = false
 			}
 		case "S":
 			res.reqs = append(res.reqs, &reqRec{id: len(res.reqs), path: strings.Join(p[1:], ":"), start: i, end: i, noHdr: true})
